@@ -62,6 +62,20 @@ impl VM {
             self.heap.mark(frame.function());
         }
 
+        // A frame that runs a closure records the closure's inner function and a raw pointer into
+        // the closure object's upvalue vector, not the closure itself. The closure can drop the
+        // last reference to itself while it runs (a handler stored in a global that replaces
+        // itself), so the owners of those vectors are roots for as long as the frames live.
+        let running_upvalues: Vec<*const GcRef> = self
+            .frames
+            .iter()
+            .filter(|f| !f.upvalues_ptr.is_null() && f.upvalues_len > 0)
+            .map(|f| f.upvalues_ptr)
+            .collect();
+        for closure_ref in self.heap.closures_owning_upvalues(&running_upvalues) {
+            self.heap.mark(closure_ref);
+        }
+
         for value in self.globals.values() {
             if let Some(gc_ref) = value.as_ptr() {
                 self.heap.mark(GcRef::new(gc_ref));
